@@ -290,6 +290,141 @@ pub(crate) use utils::test_utils;
 #[cfg(doctest)]
 mod book_tests;
 
+/// Verification hooks (feature `scylla-verif`): public pass-throughs to crate-private
+/// items for the out-of-tree solver-based checks. Add-only; no logic lives here.
+#[cfg(feature = "scylla-verif")]
+#[doc(hidden)]
+pub mod verif_hooks {
+    use crate::errors::BadKeyspaceName;
+    use crate::frame::response::result::PreparedMetadata;
+    use crate::network::verif_connection;
+    use crate::routing::locator::TokenRing;
+    use crate::routing::locator::tablets::{self, verif_hooks as vt};
+    use crate::routing::partitioner::{
+        Murmur3PartitionerHasher, PartitionerName, verif_hooks as vp,
+    };
+    use crate::routing::{Shard, ShardAwarePortRange, ShardCount, Sharder, Token, verif_sharding};
+    use crate::serialize::row::SerializedValues;
+    use crate::statement::prepared::{TokenCalculationError, verif_hooks as vprep};
+
+    pub fn lowest_port(s: &Sharder, shard: u16, range: &ShardAwarePortRange) -> Option<u16> {
+        verif_sharding::lowest_port(s, shard, range)
+    }
+    pub fn draw_from_range(s: &Sharder, shard: Shard, r: &ShardAwarePortRange) -> Option<u16> {
+        verif_sharding::draw_from_range(s, shard, r)
+    }
+    pub fn iter_from_range(
+        s: &Sharder,
+        shard: Shard,
+        r: &ShardAwarePortRange,
+    ) -> impl Iterator<Item = u16> + use<> {
+        verif_sharding::iter_from_range(s, shard, r)
+    }
+    pub fn shard_info_new(
+        shard: u16,
+        nr_shards: ShardCount,
+        msb_ignore: u8,
+    ) -> Option<(u16, ShardCount, u8)> {
+        verif_sharding::shard_info_new(shard, nr_shards, msb_ignore)
+    }
+
+    pub fn ring_new<ElemT>(it: impl Iterator<Item = (Token, ElemT)>) -> TokenRing<ElemT> {
+        crate::routing::locator::verif_token_ring::ring_new(it)
+    }
+
+    /// Per-table tablet list (`TableTablets`) with tagged, replica-less tablets.
+    pub struct Tablets(tablets::TableTablets);
+    impl Tablets {
+        #[allow(clippy::new_without_default)]
+        pub fn new() -> Self {
+            Self(vt::table_new())
+        }
+        pub fn push_raw(&mut self, first: i64, last: i64, tag: u32) {
+            vt::table_push_raw(&mut self.0, vt::make_tablet(first, last, tag))
+        }
+        pub fn add(&mut self, first: i64, last: i64, tag: u32) {
+            vt::table_add(&mut self.0, vt::make_tablet(first, last, tag))
+        }
+        pub fn lookup(&self, token: i64) -> Option<(i64, i64, u32)> {
+            vt::table_lookup(&self.0, token)
+        }
+        #[allow(clippy::len_without_is_empty)]
+        pub fn len(&self) -> usize {
+            vt::table_len(&self.0)
+        }
+        pub fn get(&self, i: usize) -> (i64, i64, u32) {
+            vt::table_get(&self.0, i)
+        }
+    }
+
+    pub fn murmur3_state(h: &Murmur3PartitionerHasher) -> (usize, [u8; 16], i64, i64) {
+        vp::murmur3_state(h)
+    }
+    pub fn murmur3_from_state(
+        total_len: usize,
+        buf: [u8; 16],
+        h1: i64,
+        h2: i64,
+    ) -> Murmur3PartitionerHasher {
+        vp::murmur3_from_state(total_len, buf, h1, h2)
+    }
+    pub fn murmur3_hash_16_bytes(h: &mut Murmur3PartitionerHasher, k1: i64, k2: i64) {
+        vp::murmur3_hash_16_bytes(h, k1, k2)
+    }
+    pub fn murmur3_fmix(k: i64) -> i64 {
+        vp::murmur3_fmix(k)
+    }
+
+    pub fn pk_token(
+        meta: &PreparedMetadata,
+        values: &SerializedValues,
+        partitioner: &PartitionerName,
+    ) -> Option<Result<Token, TokenCalculationError>> {
+        vprep::pk_token(meta, values, partitioner)
+    }
+    pub fn pk_encode(
+        meta: &PreparedMetadata,
+        values: &SerializedValues,
+        writer: &mut impl FnMut(&[u8]),
+    ) -> Option<Result<(), TokenCalculationError>> {
+        vprep::pk_encode(meta, values, writer)
+    }
+    pub fn token_for_partition_key(
+        values: &SerializedValues,
+        partitioner: &PartitionerName,
+    ) -> Result<Token, TokenCalculationError> {
+        crate::routing::partitioner::calculate_token_for_partition_key(values, partitioner)
+    }
+
+    /// Stream id allocator (`StreamIdSet`).
+    pub struct StreamIds(verif_connection::StreamIds);
+    impl StreamIds {
+        #[allow(clippy::new_without_default)]
+        pub fn new() -> Self {
+            Self(verif_connection::StreamIds::new())
+        }
+        pub fn from_bitmap(bitmap: Box<[u64]>) -> Self {
+            Self(verif_connection::StreamIds::from_bitmap(bitmap))
+        }
+        pub fn bitmap(&self) -> &[u64] {
+            self.0.bitmap()
+        }
+        pub fn allocate(&mut self) -> Option<i16> {
+            self.0.allocate()
+        }
+        pub fn free(&mut self, stream_id: i16) {
+            self.0.free(stream_id)
+        }
+    }
+
+    pub fn verify_keyspace_name(
+        name: String,
+        case_sensitive: bool,
+    ) -> Result<(String, bool), BadKeyspaceName> {
+        verif_connection::verify_keyspace_name(name, case_sensitive)
+    }
+}
+
 #[cfg(all(scylla_unstable, feature = "unstable-testing"))]
 #[doc(hidden)]
 pub mod internal_testing {
